@@ -404,7 +404,10 @@ def m5_fast_path_reads_one_snapshot(S):
         return mk_option(ex.ctx.bool("view_known").t, OpaqueV("view_of_main_chain_hash", "HeaderIndexView"), d)
 
     def onchain(ex, c, a, d):
-        tested.append(nmv(ex, a[1]) if len(a) > 1 else "?")
+        x = deref(ex, a[1]) if len(a) > 1 else None
+        if isinstance(x, AggV) and x.fields:      # Fn::call passes the arguments as a tuple
+            x = x.fields[0]
+        tested.append(nmv(ex, x) if x is not None else "?")
         return on_chain
     ctx.env = [
         (E.rx(r"ActiveChain::get_block_hash$"), gbh),
@@ -425,8 +428,9 @@ def m5_fast_path_reads_one_snapshot(S):
     S.prove(ctx, ob, "shortcut_asks_for_the_target_number", [], bool(asked) and T.and_(*[T.implies(T.and_(*pc), T.eq(t, number.t)) for t, pc in asked]))
     S.prove(ctx, ob, "shortcut_looks_up_the_main_chain_hash_it_got", [], bool(looked and all(n == "main_chain_hash_at_target" for n, _ in looked)), extra={"note": str(looked)})
     rs = returns(ps)
-    some = [p for p in rs if isinstance(p.value, EnumV) and p.value.disc == 1]
-    S.prove(ctx, ob, "shortcut_result_is_the_view_of_that_hash", [], bool(some and all(nmv(None, p.value.payload(1)[0]) == "view_of_main_chain_hash" for p in some)))
+    some = [p for p in rs if isinstance(p.value, EnumV) and p.value.disc != 0 and p.value.payload(1)]
+    S.prove(ctx, ob, "shortcut_result_is_the_view_of_that_hash", [], bool(some and all(nmv(None, p.value.payload(1)[0]) == "view_of_main_chain_hash" for p in some)),
+            extra={"note": str([nmv(None, p.value.payload(1)[0]) for p in some])})
     S.witness(ctx, ob, "reach_shortcut", [], taken)
 
 
@@ -488,7 +492,7 @@ def m6_header_map_two_tiers_refine_a_plain_map(S):
             (E.rx(r"MemoryMap::contains_key$"), tier("mem_contains", lambda ex, st, d: BoolV(st["mem"]))),
             (E.rx(r"MemoryMap::get_refresh$"), tier("mem_get", lambda ex, st, d: mk_option(st["mem"], IntV(st["mv"], "u64"), d))),
             (E.rx(r"MemoryMap::insert$"), tier("mem_insert", lambda ex, st, d: mk_option(ex.ctx.bool("was_new").t, UNIT, d))),
-            (E.rx(r"MemoryMap::remove$"), tier("mem_remove", lambda ex, st, d: UNIT)),
+            (E.rx(r"MemoryMap::remove$"), tier("mem_remove", lambda ex, st, d: UNIT if d.strip() in ("()", "") else mk_option(st["mem"], IntV(st["mv"], "u64"), d))),
             (E.rx(r"KeyValueBackend>::is_empty$"), lambda ex, c, a, d: back_empty),
             (E.rx(r"KeyValueBackend>::contains_key$"), tier("back_contains", lambda ex, st, d: BoolV(st["back"]))),
             (E.rx(r"KeyValueBackend>::remove$"), tier("back_remove", lambda ex, st, d: mk_option(st["back"], IntV(st["bv"], "u64"), d))),
